@@ -7,6 +7,7 @@
 From TenpyV Require Import Base.Prelude Model.Charge Model.Tensor Model.TensorOps Model.TensorDot Model.TakeSlice.
 From TenpyV Require Import Proofs.ChargeP Proofs.TensorP Proofs.TensorP2 Proofs.TensorP3 Proofs.TensorDotP Proofs.TakeSliceP.
 From TenpyV Require Import Model.TensorProg Proofs.TensorProgP Proofs.TensorProgP2 Proofs.TensorProgEx.
+From TenpyV Require Import Model.LegLookup Proofs.LegLookupP.
 Open Scope Z_scope.
 
 (* ChargeInfo.make_valid: idempotent, compatible with addition and negation (what the qtotal arithmetic relies on) *)
@@ -166,6 +167,35 @@ Theorem T02_gauge_flip_sign_needed :
   bch (nth 0 (legs (gauge_total_charge [1] 0 [1] (-1) gg_a)) dleg) = [[-1]; [-2]].
 Proof. exact gauge_wrong_sign_refuted. Qed.
 
+(* LegCharge.get_qindex_of_charges (Model/LegLookup.v; correspondence-checked by the stream leg-lookups of harness/c02.py) is the inverse of
+   LegCharge.get_charge on every leg blocked by charge, for BOTH directions qconj = +1 / -1 and every charge group *)
+Theorem T02_lookup_inverse : forall ci l q, valid_ci ci -> leg_ok ci l -> blocked l -> (q < length (bch l))%nat ->
+  qindex_of_charges ci l (leg_charge l q) = Some q.
+Proof. exact lookup_inverse. Qed.
+
+(* whatever block the look-up returns carries the requested charge (blocked or not) *)
+Theorem T02_lookup_sound : forall ci l c q, valid_ci ci -> leg_ok ci l -> length c = length ci ->
+  qindex_of_charges ci l c = Some q ->
+  (q < length (bch l))%nat /\ make_valid ci (leg_charge l q) = make_valid ci c.
+Proof. exact lookup_sound. Qed.
+
+(* sparse.FlatLinearOperator.flat_to_npc in compact flat mode builds the vector by hand (legs [leg], qtotal = charge_sector, _qdata = [[qi]],
+   _qdata_sorted = True) from the block qi = leg.get_qindex_of_charges(charge_sector): that vector is well-formed *)
+Theorem T02_compact_vector_wf : forall ci l sector q, valid_ci ci -> leg_ok ci l -> check_valid ci sector = true ->
+  qindex_of_charges ci l sector = Some q -> WF ci (compact_vector l sector q).
+Proof. exact compact_vector_wf. Qed.
+
+(* the factor qconj in the look-up is needed: on the outgoing U(1) leg lk_leg (blocks of charge -1, 0, +1; all hypotheses above hold) the
+   look-up without it returns for get_charge(0) = +1 the block 2, and the hand-built vector of that block violates the charge rule; the
+   look-up as it is returns block 0 and a well-formed vector (also the non-vacuity witness of the three theorems above) *)
+Theorem T02_lookup_qconj_needed :
+  valid_ci [1] /\ leg_ok [1] lk_leg /\ blocked lk_leg /\ leg_charge lk_leg 0 = [1] /\
+  qindex_of_charges_noconj [1] lk_leg (leg_charge lk_leg 0) = Some 2%nat /\
+  ~ charge_rule [1] (compact_vector lk_leg [1] 2) /\
+  qindex_of_charges [1] lk_leg (leg_charge lk_leg 0) = Some 0%nat /\
+  WF [1] (compact_vector lk_leg [1] 0).
+Proof. exact lookup_qconj_needed. Qed.
+
 (* non-vacuity *)
 Definition ex2_leg : leg := mkLeg [1%nat; 2%nat] [[1]; [3]] 1.
 Definition ex2_arr : arr :=
@@ -246,3 +276,7 @@ Print Assumptions T02_isort_trusts_claim.
 Print Assumptions T02_charge_rule_outer.
 Print Assumptions T02_charge_rule_tensordot.
 Print Assumptions T02_qtotal_rules.
+Print Assumptions T02_lookup_inverse.
+Print Assumptions T02_lookup_sound.
+Print Assumptions T02_compact_vector_wf.
+Print Assumptions T02_lookup_qconj_needed.
